@@ -64,6 +64,7 @@ type ReplayFile struct {
 	RunIndex  uint64            `json:"run_index"`
 	RunSeed   uint64            `json:"run_seed"`
 	Tape      []uint32          `json:"tape"`
+	SchedTape []uint32          `json:"sched_tape"`
 	OrigLen   int               `json:"orig_tape_len"`
 	Check     string            `json:"check"`
 	Sig       string            `json:"sig"`
@@ -145,100 +146,101 @@ func sameViolation(a, b *Violation) bool {
 	return a.Check == b.Check && a.Sig == b.Sig
 }
 
-// Minimise shrinks a failing tape while the same (check, sig) recurs.
-func (w *Worker) Minimise(tape []uint32, want *Violation) ([]uint32, int) {
+// Minimise shrinks a failing pair of tapes (workload stream, scheduler stream)
+// while the same (check, sig) recurs: first the scheduler stream (a simpler
+// schedule), then the workload stream, then the scheduler stream again.
+func (w *Worker) Minimise(tape, sched []uint32, want *Violation) ([]uint32, []uint32, int) {
 	execs := 0
 	maxExecs, maxTime := 1500, 45*time.Second
 	if _, known := w.known[want.Key()]; known {
 		maxExecs, maxTime = 150, 4*time.Second // recorded findings are only counted; keep their cost small
 	}
 	deadline := time.Now().Add(maxTime)
-	try := func(c []uint32) ([]uint32, bool) {
+	best := [2][]uint32{tape, sched}
+	try := func(si int, c []uint32) bool {
 		if execs >= maxExecs || time.Now().After(deadline) {
-			return nil, false
+			return false
 		}
 		execs++
-		tp := ReplayTape(c)
+		cand := best
+		cand[si] = c
+		tp := ReplayTape2(cand[0], cand[1])
 		r := w.Exec(tp, false)
 		if sameViolation(r.V, want) {
-			return tp.Values(), true // consumed prefix only
+			best = [2][]uint32{tp.Values(), tp.SchedValues()} // consumed prefixes only
+			return true
 		}
-		return nil, false
+		return false
 	}
-	best := tape
-	if c, ok := try(best); ok {
-		best = c
-	} else {
-		return tape, execs
+	if !try(0, best[0]) {
+		return tape, sched, execs
 	}
-	// 1. truncate tail by bisection
-	lo, hi := 0, len(best)
-	for lo < hi {
-		mid := (lo + hi) / 2
-		if c, ok := try(best[:mid]); ok {
-			best = c
-			hi = len(best)
-			if hi > mid {
-				hi = mid
+	shrink := func(si int) {
+		// 1. truncate the tail by bisection
+		lo, hi := 0, len(best[si])
+		for lo < hi {
+			mid := (lo + hi) / 2
+			if try(si, best[si][:mid]) {
+				hi = len(best[si])
+				if hi > mid {
+					hi = mid
+				}
+			} else {
+				lo = mid + 1
 			}
-		} else {
-			lo = mid + 1
+			if hi > len(best[si]) {
+				hi = len(best[si])
+			}
 		}
-		if hi > len(best) {
-			hi = len(best)
-		}
-	}
-	// 2. delete chunks, 3. zero chunks
-	for pass := 0; pass < 2; pass++ {
-		for size := len(best) / 2; size >= 1; size /= 2 {
-			for i := 0; i+size <= len(best); {
-				var c []uint32
-				if pass == 0 {
-					c = append(append([]uint32(nil), best[:i]...), best[i+size:]...)
-				} else {
-					allZero := true
-					for _, v := range best[i : i+size] {
-						if v != 0 {
-							allZero = false
+		// 2. delete chunks, 3. zero chunks
+		for pass := 0; pass < 2; pass++ {
+			for size := len(best[si]) / 2; size >= 1; size /= 2 {
+				for i := 0; i+size <= len(best[si]); {
+					cur := best[si]
+					var c []uint32
+					if pass == 0 {
+						c = append(append([]uint32(nil), cur[:i]...), cur[i+size:]...)
+					} else {
+						allZero := true
+						for _, v := range cur[i : i+size] {
+							if v != 0 {
+								allZero = false
+							}
+						}
+						if allZero {
+							i += size
+							continue
+						}
+						c = append([]uint32(nil), cur...)
+						for j := i; j < i+size; j++ {
+							c[j] = 0
 						}
 					}
-					if allZero {
+					if !try(si, c) {
 						i += size
-						continue
-					}
-					c = append([]uint32(nil), best...)
-					for j := i; j < i+size; j++ {
-						c[j] = 0
 					}
 				}
-				if nc, ok := try(c); ok {
-					best = nc
+			}
+		}
+		// 4. reduce single values
+		for i := 0; i < len(best[si]); i++ {
+			for i < len(best[si]) && best[si][i] > 0 {
+				c := append([]uint32(nil), best[si]...)
+				if c[i] > 1 {
+					c[i] /= 2
 				} else {
-					i += size
+					c[i] = 0
+				}
+				if !try(si, c) {
+					break
 				}
 			}
 		}
 	}
-	// 4. reduce single values
-	for i := 0; i < len(best); i++ {
-		for best[i] > 0 {
-			c := append([]uint32(nil), best...)
-			if c[i] > 1 {
-				c[i] /= 2
-			} else {
-				c[i] = 0
-			}
-			if nc, ok := try(c); ok && len(nc) > i {
-				best = nc
-			} else if ok {
-				best = nc
-				break
-			} else {
-				break
-			}
-		}
-	}
-	return best, execs
+	shrink(1)
+	shrink(0)
+	shrink(1)
+	return best[0], best[1], execs
 }
 
 func (w *Worker) absorb(r *Run) {
@@ -287,8 +289,8 @@ func (w *Worker) Handle(r *Run, runIdx, runSeed uint64) bool {
 		return true
 	}
 	_, isKnown := w.known[key]
-	tape, execs := w.Minimise(r.T.Values(), r.V)
-	tp := ReplayTape(tape)
+	tape, stape, execs := w.Minimise(r.T.Values(), r.T.SchedValues(), r.V)
+	tp := ReplayTape2(tape, stape)
 	fr := w.Exec(tp, true)
 	if !sameViolation(fr.V, r.V) {
 		// could not reproduce even the original: determinism defect of the machinery
@@ -296,7 +298,7 @@ func (w *Worker) Handle(r *Run, runIdx, runSeed uint64) bool {
 		return false
 	}
 	rf := &ReplayFile{Property: w.E.Prop, Lane: fr.Lane, Tier: w.Job.Tier, Seed: w.Job.Seed, RunIndex: runIdx, RunSeed: runSeed,
-		Tape: tp.Values(), OrigLen: len(r.T.Values()), Check: fr.V.Check, Sig: fr.V.Sig, Detail: fr.V.Detail, Info: fr.Info,
+		Tape: tp.Values(), SchedTape: tp.SchedValues(), OrigLen: len(r.T.Values()) + len(r.T.SchedValues()), Check: fr.V.Check, Sig: fr.V.Sig, Detail: fr.V.Detail, Info: fr.Info,
 		LogHash: fmt.Sprintf("%016x", fr.LogHash()), Log: fr.LogLines(), MinExecs: execs, Faults: fr.Faults, Param: w.Param}
 	name := fmt.Sprintf("%s-%s-%d-%d.json", w.E.Prop, sanitize(fr.V.Check), w.Job.Seed, runIdx)
 	if w.Param != "" {
@@ -333,11 +335,11 @@ func sanitize(s string) string {
 // event-log digest and verdict (determinism self-check).
 func (w *Worker) Recheck(r *Run, runIdx uint64) bool {
 	w.Res.Rechecks++
-	r2 := w.Exec(ReplayTape(r.T.Values()), false)
+	r2 := w.Exec(ReplayTape2(r.T.Values(), r.T.SchedValues()), false)
 	if r2.LogHash() != r.LogHash() || !sameViolation(r.V, r2.V) || r2.T.Draws != r.T.Draws {
 		// find first differing log line for the report
-		a := w.Exec(ReplayTape(r.T.Values()), true)
-		b := w.Exec(ReplayTape(r.T.Values()), true)
+		a := w.Exec(ReplayTape2(r.T.Values(), r.T.SchedValues()), true)
+		b := w.Exec(ReplayTape2(r.T.Values(), r.T.SchedValues()), true)
 		la, lb := a.LogLines(), b.LogLines()
 		diff := ""
 		for i := 0; i < len(la) && i < len(lb); i++ {
@@ -358,7 +360,7 @@ func (w *Worker) sample(r *Run, runIdx uint64) {
 	if len(lines) > 60 {
 		lines = append(lines[:60], fmt.Sprintf("… %d more lines", len(lines)-60))
 	}
-	m := map[string]any{"run_index": runIdx, "lane": r.Lane, "info": r.Info, "tape_len": len(r.T.Values()), "steps": r.Steps, "faults": r.Faults, "trace": lines}
+	m := map[string]any{"run_index": runIdx, "lane": r.Lane, "info": r.Info, "tape_len": len(r.T.Values()) + len(r.T.SchedValues()), "steps": r.Steps, "faults": r.Faults, "trace": lines}
 	b, _ := json.Marshal(m)
 	w.Res.Samples = append(w.Res.Samples, b)
 }
@@ -495,7 +497,7 @@ func (w *Worker) replay() {
 	}
 	w.Job.Tier = rf.Tier
 	w.Param = rf.Param
-	r := w.Exec(ReplayTape(rf.Tape), true)
+	r := w.Exec(ReplayTape2(rf.Tape, rf.SchedTape), true)
 	out := map[string]any{"reproduced": false}
 	if r.V != nil {
 		out["check"] = r.V.Check
